@@ -50,9 +50,12 @@ def strategy(shard):
     if shard["kind"] == "merge":
         tp = st.sampled_from([None, None, "p1", "p1", "p2"] if not shard.get("conflict_bias") else [None, "p1", "p2", "p3"])
         rec = st.fixed_dictionaries(
-            {"id": st.sampled_from(IDS), "votes": _votes(), "phantom": st.booleans(), "pool": st.booleans(), "tally_pool": tp}
+            {"id": st.sampled_from(IDS), "votes": _votes(), "phantom": st.booleans(), "pool": st.booleans(), "tally_pool": tp,
+             # how the caller holds the votes: its own dict, one template dict shared by all such records (votes ignored,
+             # the template is used), or no votes argument at all (the constructor's default)
+             "holds": st.sampled_from(["own", "own", "own", "own", "template", "default"])}
         )
-        return st.fixed_dictionaries({"kind": st.just("merge"), "records": st.lists(rec, max_size=12)})
+        return st.fixed_dictionaries({"kind": st.just("merge"), "records": st.lists(rec, max_size=12), "template": _votes()})
 
     @st.composite
     def raire(draw):
@@ -74,8 +77,17 @@ def strategy(shard):
     return raire()
 
 
-def _mk(CVR, r):
-    return CVR(id=r["id"], votes=copy.deepcopy(r["votes"]), phantom=r["phantom"], pool=r["pool"], tally_pool=r["tally_pool"])
+def _votes_of(r, case):
+    h = r.get("holds", "own")
+    return {} if h == "default" else (case.get("template", {}) if h == "template" else r["votes"])
+
+
+def _mk(CVR, r, template):
+    h = r.get("holds", "own")
+    if h == "default":
+        return CVR(id=r["id"], phantom=r["phantom"], pool=r["pool"], tally_pool=r["tally_pool"])
+    votes = template if h == "template" else copy.deepcopy(r["votes"])
+    return CVR(id=r["id"], votes=votes, phantom=r["phantom"], pool=r["pool"], tally_pool=r["tally_pool"])
 
 
 def evaluate(case, out):
@@ -85,11 +97,12 @@ def evaluate(case, out):
         recs = case["records"]
         model = OrderedDict()
         for r in recs:
+            rv = _votes_of(r, case)
             if r["id"] not in model:
-                model[r["id"]] = {"votes": copy.deepcopy(r["votes"]), "ph": [r["phantom"]], "pool": [r["pool"]], "tp": [r["tally_pool"]]}
+                model[r["id"]] = {"votes": copy.deepcopy(rv), "ph": [r["phantom"]], "pool": [r["pool"]], "tp": [r["tally_pool"]]}
             else:
                 m = model[r["id"]]
-                m["votes"].update(copy.deepcopy(r["votes"]))
+                m["votes"].update(copy.deepcopy(rv))
                 m["ph"].append(r["phantom"]); m["pool"].append(r["pool"]); m["tp"].append(r["tally_pool"])
         conflict = any(len({t for t in m["tp"] if t is not None}) > 1 for m in model.values())
         # non-triviality
@@ -99,7 +112,7 @@ def evaluate(case, out):
         for rs in by_id.values():
             if len(rs) >= 2:
                 out.cls("repeated-id")
-                shared = any(set(a["votes"]) & set(b["votes"]) for i, a in enumerate(rs) for b in rs[i + 1:])
+                shared = any(set(_votes_of(a, case)) & set(_votes_of(b, case)) for i, a in enumerate(rs) for b in rs[i + 1:])
                 mixed = any(len({repr(r[k]) for r in rs}) > 1 for k in ("phantom", "pool", "tally_pool"))
                 if shared:
                     out.cls("shared-contest")
@@ -109,7 +122,10 @@ def evaluate(case, out):
                     out.nontrivial = True
         if conflict:
             out.cls("tally-pool-conflict")
-        objs = [_mk(CVR, r) for r in recs]
+        template = copy.deepcopy(case.get("template", {}))
+        objs = [_mk(CVR, r, template) for r in recs]
+        if any(r.get("holds") in ("template", "default") for r in recs):
+            out.cls("shared-votes-dict")
         try:
             merged = CVR.merge_cvrs(objs)
         except ValueError as e:
@@ -130,6 +146,15 @@ def evaluate(case, out):
             out.expect(isinstance(m.pool, bool) and m.pool == any(ref["pool"]), "merge:pool", lambda: (i, repr(m.pool)[:80], ref["pool"]))
             tps = {t for t in ref["tp"] if t is not None}
             out.expect(m.tally_pool == (next(iter(tps)) if tps else None), "merge:tally_pool", lambda: (i, m.tally_pool, ref["tp"]))
+        # a list with one record per identifier merges to itself
+        snap = [(m.id, copy.deepcopy(m.votes), m.phantom, m.pool, m.tally_pool) for m in merged]
+        try:
+            again = CVR.merge_cvrs(merged)
+        except Exception as e:  # noqa
+            out.lib_exception("merge(merged)", e)
+            return
+        out.expect([(m.id, m.votes, m.phantom, m.pool, m.tally_pool) for m in again] == snap, "merge:not-idempotent",
+                   lambda: [(m.id, m.votes, m.phantom, repr(m.pool)[:20], m.tally_pool) for m in again][:4])
         return
 
     # ---- RAIRE reader
